@@ -927,3 +927,75 @@ Proof.
   intros c. destruct (env c) as [x|]; cbn; auto. apply xq_eq_refl.
 Qed.
 
+
+(* ------------------------------------------------------------------------------------ *)
+(* which level supplies the u of a TF adjustment *)
+Lemma find_first {A} (f : A -> bool) l x :
+  find f l = Some x <->
+  exists i, nth_error l i = Some x /\ f x = true /\ forall j y, (j < i)%nat -> nth_error l j = Some y -> f y = false.
+Proof.
+  induction l as [|a t IH]; cbn.
+  - split; [discriminate|]. intros (i & H & _). destruct i; discriminate.
+  - destruct (f a) eqn:Fa.
+    + split.
+      * intros E. injection E as <-. exists 0%nat. repeat split; auto. intros j y Hj. lia.
+      * intros (i & Hn & Hf & Hb). destruct i as [|i]; [cbn in Hn; congruence|].
+        specialize (Hb 0%nat a ltac:(lia) eq_refl). congruence.
+    + rewrite IH. split.
+      * intros (i & Hn & Hf & Hb). exists (S i). repeat split; auto.
+        intros [|j] y Hj Hy; cbn in Hy; [congruence|]. apply (Hb j); auto. lia.
+      * intros (i & Hn & Hf & Hb). destruct i as [|i]; [cbn in Hn; congruence|].
+        exists i. repeat split; auto. intros j y Hj Hy. apply (Hb (S j)); auto. lia.
+Qed.
+
+Lemma is_exact_on_iff c l : is_exact_on c l = true <-> exact_cols l = [c].
+Proof.
+  unfold is_exact_on. destruct (exact_cols l) as [|c' [|c'' t]]; split; intros H; try discriminate.
+  - apply Nat.eqb_eq in H. subst. reflexivity.
+  - injection H as ->. apply Nat.eqb_refl.
+Qed.
+
+(* u_exact: own u with detection disabled; otherwise the u of the first listed level that is an exact
+   match on exactly the TF column - never a level that matches several columns *)
+Lemma u_exact_supplier ls l c u :
+  disable_exact_detect l = false -> tf_col l = Some c ->
+  (u_exact ls l = Some u <->
+   exists i s, nth_error ls i = Some s /\ exact_cols s = [c] /\ lu s = u /\
+               forall j y, (j < i)%nat -> nth_error ls j = Some y -> exact_cols y <> [c]).
+Proof.
+  intros Hd Hc. unfold u_exact. rewrite Hd, Hc. split.
+  - destruct (find (is_exact_on c) ls) as [s|] eqn:Hf; cbn; [|discriminate]. intros E. injection E as <-.
+    apply find_first in Hf. destruct Hf as (i & Hn & He & Hb). exists i, s. repeat split; auto.
+    + apply is_exact_on_iff; auto.
+    + intros j y Hj Hy E. apply is_exact_on_iff in E. rewrite (Hb j y Hj Hy) in E. discriminate.
+  - intros (i & s & Hn & He & Hu & Hb).
+    assert (Hf : find (is_exact_on c) ls = Some s).
+    { apply find_first. exists i. repeat split; auto.
+      - apply is_exact_on_iff; auto.
+      - intros j y Hj Hy. destruct (is_exact_on c y) eqn:E; auto. apply is_exact_on_iff in E. exfalso. eapply Hb; eauto. }
+    rewrite Hf. cbn. congruence.
+Qed.
+
+Lemma u_exact_disabled ls l : disable_exact_detect l = true -> u_exact ls l = Some (lu l).
+Proof. unfold u_exact. intros ->. reflexivity. Qed.
+
+Lemma multi_column_level_never_supplies c s : (2 <= length (exact_cols s))%nat -> is_exact_on c s = false.
+Proof. unfold is_exact_on. destruct (exact_cols s) as [|a [|b t]]; cbn; intros H; try lia; reflexivity. Qed.
+
+(* the documented factor with the supplier made explicit *)
+Lemma tf_adj_formula_supplier pow tfs ls l cvv k tfl tfr l' r' i s :
+  tf_active l cvv = true -> tf_col l = Some k -> tfs k = (tfl, tfr) ->
+  coalesce2 tfl tfr = Some l' -> coalesce2 tfr tfl = Some r' ->
+  0 <= l' -> 0 <= r' -> 0 <= tf_min_u l ->
+  disable_exact_detect l = false ->
+  nth_error ls i = Some s -> exact_cols s = [k] ->
+  (forall j y, (j < i)%nat -> nth_error ls j = Some y -> exact_cols y <> [k]) ->
+  exists d, d == Qmax (Qmax l' r') (tf_min_u l) /\
+            tf_adj pow tfs ls l cvv = pow (lu s / d) (tf_w l).
+Proof.
+  intros Ha Hk Ht Hl Hr Pl Pr Pm Hd Hn He Hb.
+  destruct (tf_adj_formula pow tfs ls l cvv k tfl tfr l' r' Ha Hk Ht Hl Hr Pl Pr Pm) as (d & Hm & Hv).
+  exists d. split; auto. rewrite Hv. unfold u_exact_or.
+  assert (Hu : u_exact ls l = Some (lu s)) by (apply (u_exact_supplier ls l k (lu s) Hd Hk); exists i, s; auto).
+  rewrite Hu. reflexivity.
+Qed.
